@@ -333,6 +333,28 @@ fn banded_entries(out: &mut Vec<(String, String)>) {
             verdict(out, "Banded::fill_band", format!("({},{},{}) band {}", n1, a1, b1, bd), bd < -(a1 as isize) || bd > b1 as isize, false, probe(&setup1, &key1, &|s| { s.fill_band(bd, r(3)); }));
         }
         verdict(out, "Banded::det (&self)", format!("({},{},{})", n1, a1, b1), false, true, probe(&setup1, &key1, &|s| { let _ = s.det(); }));
+        // a matrix that was RESIZED to other bandwidths (same n; also the same m1 + m2, where the compact storage keeps its shape): every
+        // later shape check must see the new bandwidths
+        for &(n2, a2, b2) in &cfgs {
+            if n2 != n1 || (a2, b2) == (a1, b1) {
+                continue;
+            }
+            let resized = move || {
+                let mut x = band(n1, a1, b1, 0);
+                x.resize(n1, a2, b2);
+                x
+            };
+            let tag = format!("({},{},{}) resized to ({},{},{})", n1, a1, b1, n1, a2, b2);
+            let with_old = || (resized(), band(n1, a1, b1, 100));
+            let with_new = || (resized(), band(n1, a2, b2, 100));
+            verdict(out, "Banded += &Banded after resize", format!("{} with the OLD shape", tag), true, false, probe(&with_old, &key2, &|s| { let w = s.1.clone(); s.0 += &w; }));
+            verdict(out, "&Banded - &Banded after resize", format!("{} with the OLD shape", tag), true, true, probe(&with_old, &key2, &|s| { let _ = &s.0 - &s.1; }));
+            verdict(out, "Banded += &Banded after resize", format!("{} with the NEW shape", tag), false, false, probe(&with_new, &key2, &|s| { let w = s.1.clone(); s.0 += &w; }));
+            verdict(out, "&Banded - &Banded after resize", format!("{} with the NEW shape", tag), false, true, probe(&with_new, &key2, &|s| { let _ = &s.0 - &s.1; }));
+            for bd in -(a1.max(a2) as isize) - 1..=(b1.max(b2) as isize) + 1 {
+                verdict(out, "Banded::fill_band after resize", format!("{} band {}", tag, bd), bd < -(a2 as isize) || bd > b2 as isize, false, probe(&resized, &key1, &|s| { s.fill_band(bd, r(3)); }));
+            }
+        }
     }
 }
 
@@ -397,6 +419,17 @@ fn sparse_entries(out: &mut Vec<(String, String)>) {
                     verdict(out, "Sparse::solve_bicg", ar.clone(), bad, bad, probe(&setup3, &key3, &|s| { let bb = s.1.clone(); let _ = s.0.solve_bicg(&bb, &mut s.2, 2, 1e-8, 1); }));
                     verdict(out, "Sparse::solve_bicgstab", ar.clone(), bad, bad, probe(&setup3, &key3, &|s| { let bb = s.1.clone(); let _ = s.0.solve_bicgstab(&bb, &mut s.2, 2, 1e-8); }));
                     verdict(out, "Sparse::solve_qmr", ar.clone(), bad, bad, probe(&setup3, &key3, &|s| { let bb = s.1.clone(); let _ = s.0.solve_qmr(&bb, &mut s.2, 2, 1e-8); }));
+                    // calls that would return before the first product: budget 0, and an "already solved" start (b = 0, x = 0) - the
+                    // shapes must be refused all the same
+                    let setup0 = || (sparse(rr, c), Vector::new(b, 0.0), Vector::new(xs, 0.0));
+                    verdict(out, "Sparse::solve_cg (budget 0)", ar.clone(), bad, bad, probe(&setup3, &key3, &|s| { let bb = s.1.clone(); let _ = s.0.solve_cg(&bb, &mut s.2, 0, 1e-8); }));
+                    verdict(out, "Sparse::solve_bicg (budget 0)", ar.clone(), bad, bad, probe(&setup3, &key3, &|s| { let bb = s.1.clone(); let _ = s.0.solve_bicg(&bb, &mut s.2, 0, 1e-8, 2); }));
+                    verdict(out, "Sparse::solve_bicgstab (budget 0)", ar.clone(), bad, bad, probe(&setup3, &key3, &|s| { let bb = s.1.clone(); let _ = s.0.solve_bicgstab(&bb, &mut s.2, 0, 1e-8); }));
+                    verdict(out, "Sparse::solve_qmr (budget 0)", ar.clone(), bad, bad, probe(&setup3, &key3, &|s| { let bb = s.1.clone(); let _ = s.0.solve_qmr(&bb, &mut s.2, 0, 1e-8); }));
+                    verdict(out, "Sparse::solve_cg (b = 0, x = 0)", ar.clone(), bad, bad, probe(&setup0, &key3, &|s| { let bb = s.1.clone(); let _ = s.0.solve_cg(&bb, &mut s.2, 2, 1e-8); }));
+                    verdict(out, "Sparse::solve_bicg (b = 0, x = 0)", ar.clone(), bad, bad, probe(&setup0, &key3, &|s| { let bb = s.1.clone(); let _ = s.0.solve_bicg(&bb, &mut s.2, 2, 1e-8, 1); }));
+                    verdict(out, "Sparse::solve_bicgstab (b = 0, x = 0)", ar.clone(), bad, bad, probe(&setup0, &key3, &|s| { let bb = s.1.clone(); let _ = s.0.solve_bicgstab(&bb, &mut s.2, 2, 1e-8); }));
+                    verdict(out, "Sparse::solve_qmr (b = 0, x = 0)", ar.clone(), bad, bad, probe(&setup0, &key3, &|s| { let bb = s.1.clone(); let _ = s.0.solve_qmr(&bb, &mut s.2, 2, 1e-8); }));
                     if !bad {
                         for itol in [0usize, 3] {
                             verdict(out, "Sparse::solve_bicg (itol)", format!("{} itol {}", ar, itol), true, true, probe(&setup3, &key3, &|s| { let bb = s.1.clone(); let _ = s.0.solve_bicg(&bb, &mut s.2, 2, 1e-8, itol); }));
